@@ -66,7 +66,10 @@ struct KindMon {
 }
 impl KindMon {
     fn see(&mut self, k: &TokenKind) -> String {
-        let s = kind_str(k);
+        self.see_with(k, kind_str)
+    }
+    fn see_with(&mut self, k: &TokenKind, enc: fn(&TokenKind) -> String) -> String {
+        let s = enc(k);
         match self.by_code.get(&s) {
             Some(k0) if k0 != k => {
                 self.violations += 1;
@@ -114,6 +117,66 @@ fn lint_str(l: &Lint) -> String {
         cps(&l.message.chars().collect::<Vec<_>>()),
         l.suggestions.iter().map(sugg_str).collect::<Vec<_>>().join(",")
     )
+}
+
+// ------------------------------------------------------------------------------------------------
+// phase 5: the byte stream of the derived Hash (stream B) — a Hasher that records what it is fed
+// ------------------------------------------------------------------------------------------------
+
+/// records every byte `Hash::hash` writes (all `write_*` methods of `Hasher` default to `write`;
+/// `write_str` = bytes + 0xFF, `write_length_prefix` = `write_usize`)
+#[derive(Default)]
+struct RecHasher {
+    bytes: Vec<u8>,
+}
+impl Hasher for RecHasher {
+    fn finish(&self) -> u64 {
+        0
+    }
+    fn write(&mut self, b: &[u8]) {
+        self.bytes.extend_from_slice(b);
+    }
+}
+fn stream_of<T: Hash>(t: &T) -> Vec<u8> {
+    let mut h = RecHasher::default();
+    t.hash(&mut h);
+    h.bytes
+}
+fn u64_at(b: &[u8], i: usize) -> u64 {
+    let mut w = [0u8; 8];
+    w.copy_from_slice(&b[8 * i..8 * i + 8]);
+    u64::from_le_bytes(w)
+}
+fn hex(b: &[u8]) -> String {
+    if b.is_empty() {
+        return "-".into();
+    }
+    b.iter().map(|x| format!("{x:02x}")).collect()
+}
+
+/// token kinds for stream B: the codes are the discriminants the implementation itself feeds to a hasher
+/// (P: index of the Punctuation variant, 64 + index of the currency for Currency(c); N: the u64 OrderedFloat hashes,
+/// in binary; suffix: index of the NumberSuffix variant)
+fn kind_str_b(k: &TokenKind) -> String {
+    match k {
+        TokenKind::Punctuation(Punctuation::Quote(_)) | TokenKind::Word(_) => kind_str(k),
+        TokenKind::Punctuation(p) => {
+            let st = stream_of(p);
+            if st.len() == 8 { format!("P {}", u64_at(&st, 0)) } else { format!("P {}", 64 + u64_at(&st, 1)) }
+        }
+        TokenKind::Number(n) => format!(
+            "N b{:b} {} {} {}",
+            u64_at(&stream_of(&n.value), 0),
+            n.suffix.map(|s| u64_at(&stream_of(&s), 0).to_string()).unwrap_or("-".into()),
+            n.radix,
+            n.precision
+        ),
+        _ => kind_str(k),
+    }
+}
+fn doc_str_b(doc: &Document, km: &mut KindMon) -> String {
+    let toks: Vec<String> = doc.get_tokens().iter().map(|t| format!("{} {} {}", t.span.start, t.span.end, km.see_with(&t.kind, kind_str_b))).collect();
+    format!("{};{}", cps(doc.get_source()), toks.join(","))
 }
 
 // ------------------------------------------------------------------------------------------------
@@ -241,6 +304,14 @@ struct Env {
     prepend_premise_broken: u64,
     aligned_checked: u64,
     aligned_broken: u64,
+    /// stream B: injectivity of the discriminant-based kind encoding, cases, violations of "SipHash is a function of the
+    /// concatenated bytes" (one write of the recorded stream must give the stored hash)
+    km_b: KindMon,
+    b_cap: usize,
+    b_from_c: usize,
+    b_cases: usize,
+    b_stream_bytes: u64,
+    stream_rehash_broken: u64,
 }
 
 impl Env {
@@ -248,7 +319,7 @@ impl Env {
         let dict = FstDictionary::curated();
         let mut group = LintGroup::new_curated(dict.clone(), Dialect::American);
         group.set_all_rules_to(Some(true));
-        Env { dict, group, km: Default::default(), seen: Default::default(), collisions: 0, mirror_mismatch: 0, c_cases: 0, x_cases: 0, q_cases: 0, prepend_premise_broken: 0, aligned_checked: 0, aligned_broken: 0 }
+        Env { dict, group, km: Default::default(), seen: Default::default(), collisions: 0, mirror_mismatch: 0, c_cases: 0, x_cases: 0, q_cases: 0, prepend_premise_broken: 0, aligned_checked: 0, aligned_broken: 0, km_b: Default::default(), b_cap: 2500, b_from_c: 0, b_cases: 0, b_stream_bytes: 0, stream_rehash_broken: 0 }
     }
     fn document(&self, text: &str, lang: &str) -> Document {
         if lang == "markdown" {
@@ -328,6 +399,36 @@ fn case_c(rep: &mut Report, env: &mut Env, l: &Lint, doc: &Document, inp: &Value
         None => rep.case(&line, "MISMATCH"),
     }
     env.c_cases += 1;
+    // stream B on the same input (capped: the extracted SipHash works on binary numbers, ~4 ms per context)
+    if env.b_from_c < env.b_cap {
+        env.b_from_c += 1;
+        case_b(rep, env, l, doc, inp);
+    }
+}
+
+/// stream B: the bytes derive(Hash) feeds to the hasher for the (validated) context of (l, doc), and the stored hash
+fn case_b(rep: &mut Report, env: &mut Env, l: &Lint, doc: &Document, inp: &Value) {
+    if doc.get_source().len() > 300 {
+        return;
+    }
+    let line = format!("B {} | {}", lint_str(l), doc_str_b(doc, &mut env.km_b));
+    match env.context(rep, l, doc, inp) {
+        Some((_, m, h)) => {
+            let st = stream_of(&m);
+            // SipHasher13 is a streaming hash: ONE write of the recorded stream must give the stored hash
+            let mut dh = DefaultHasher::default();
+            dh.write(&st);
+            if dh.finish() != h {
+                env.stream_rehash_broken += 1;
+                rep.fail("hash_stream", format!("DefaultHasher over the recorded byte stream of the context gives {} but the stored hash is {h}", dh.finish()), inp.clone());
+            }
+            env.b_stream_bytes += st.len() as u64;
+            rep.count(match st.len() { 0..=63 => "b_stream:<64 bytes", 64..=127 => "b_stream:64-127 bytes", 128..=255 => "b_stream:128-255 bytes", _ => "b_stream:>=256 bytes" });
+            rep.case(&line, &format!("wf {} {}", hex(&st), hex(&h.to_le_bytes())));
+        }
+        None => rep.case(&line, "MISMATCH"),
+    }
+    env.b_cases += 1;
 }
 
 fn case_x(rep: &mut Report, env: &mut Env, l1: &Lint, d1: &Document, l2: &Lint, d2: &Document) -> bool {
@@ -1210,6 +1311,40 @@ fn sweep_spans(rep: &mut Report, env: &mut Env, text: &str, max_len: usize) {
 }
 
 /// every field of the lint that the property lists (and priority) varied on its own: never the same lint
+/// stream B on texts with every kind of token (numbers with suffixes / radix / precision, currencies, quotes, URLs ...)
+/// and lints whose every hashed field takes edge values (all LintKinds, the three Suggestion variants, messages with
+/// 1-, 2-, 3- and 4-byte UTF-8 characters at the class borders, priorities 0 / 255)
+const B_TEXTS: &[&str] = &[
+    "He paid $5 on the 2nd, 3.5% of £1,000 — 0x1F… “quoted” 'x' 1990s a@b.co https://x.y",
+    "1st 22nd 3rd 4th 0.250 1e3 ¥7 ₩8 €9 ¢1 ฿2 ₭3 ₽4 ₺5",
+    "a  b\n\nc\t`d` [e](f) {g} <h> #i ~j ^k +l =m *n |o _p \\q /r &s @t %u ;v :w !x ?y",
+    "naïve café 漢字 😀 ok",
+];
+fn bytes_sweep(rep: &mut Report, env: &mut Env, text: &str, lang: &str, max_len: usize) {
+    let doc = env.document(text, lang);
+    let n = doc.get_source().len();
+    let kinds = [LintKind::Spelling, LintKind::Capitalization, LintKind::Style, LintKind::Formatting, LintKind::Repetition, LintKind::Enhancement, LintKind::Readability, LintKind::WordChoice, LintKind::Miscellaneous, LintKind::Punctuation];
+    let msgs = ["", "a", "é", "漢字", "😀x", "\u{7f}\u{80}\u{7ff}\u{800}\u{ffff}\u{10000}\u{10ffff}", "Did you mean “the”?"];
+    let cs = |s: &str| s.chars().collect::<Vec<char>>();
+    let suggs: Vec<Vec<Suggestion>> = vec![
+        vec![],
+        vec![Suggestion::Remove],
+        vec![Suggestion::ReplaceWith(cs("é漢😀"))],
+        vec![Suggestion::InsertAfter(vec![]), Suggestion::Remove, Suggestion::ReplaceWith(cs("x"))],
+        vec![Suggestion::InsertAfter(cs("\u{10ffff}\u{0}")), Suggestion::InsertAfter(cs("ab"))],
+    ];
+    let prios = [0u8, 1, 31, 127, 128, 255];
+    let mut k = 0usize;
+    for s0 in 0..=n {
+        for e0 in s0..=(s0 + max_len).min(n) {
+            k += 1;
+            let l = Lint { span: Span::new(s0, e0), lint_kind: kinds[k % kinds.len()], suggestions: suggs[k % suggs.len()].clone(), message: msgs[k % msgs.len()].to_string(), priority: prios[k % prios.len()] };
+            let inp = json!({"kind": "bytes", "text": text, "lang": lang, "max_len": max_len, "span": [s0, e0]});
+            case_b(rep, env, &l, &doc, &inp);
+        }
+    }
+}
+
 fn field_variants(rep: &mut Report, env: &mut Env, l: &Lint, doc: &Document, inp: &Value) {
     let mut vs: Vec<(&str, Lint, bool)> = vec![];
     let mut a = l.clone();
@@ -1796,6 +1931,7 @@ fn replay_input(rep: &mut Report, env: &mut Env, v: &Value) {
             }
         }
         "sweep" => sweep_spans(rep, env, v["text"].as_str().unwrap_or(""), v["max_len"].as_u64().unwrap_or(6) as usize),
+        "bytes" => bytes_sweep(rep, env, v["text"].as_str().unwrap_or(""), v["lang"].as_str().unwrap_or("plain"), v["max_len"].as_u64().unwrap_or(2) as usize),
         "json" => case_j(rep, v["text"].as_str().unwrap_or(""), "replay"),
         "plainq" => case_q(rep, env, v["text"].as_str().unwrap_or(""), v["s"].as_u64().unwrap_or(0) as usize, v["e"].as_u64().unwrap_or(0) as usize),
         "realpair" => real_pairs(rep, env, v["text"].as_str().unwrap_or("")),
@@ -1827,6 +1963,7 @@ fn main() {
     let mut rep = Report::new(&a.out);
     rep.rule = "scenarios (text, plain|markdown, subset of its lints with all rules on, edit): corpus, then generated texts (paragraphs/documents, triggers next to quotes and brackets, the same misspelling twice with different followers, one-character lints, malformed) x {all, one, random half} x edits {prepend, append, alter 2-5 chars beyond the lint, random splice} x {dictionary unchanged, words of the text added to a user dictionary}. non-trivial = distinct scenario in which >= 1 ignored lint was hidden".into();
     let mut env = Env::new();
+    env.b_cap = a.scale(2500, 20000);
     // the Unicode tables stream Q runs with (first lines of cases.txt: the driver loads them before any Q case)
     dump_unicode(&mut rep);
     for c in &corpus {
@@ -1853,6 +1990,11 @@ fn main() {
         for _ in 0..a.scale(2, 60) {
             let t: String = gen_text(&mut r).chars().take(40).collect();
             sweep_spans(&mut rep, &mut env, &t, a.scale(5, 12));
+        }
+        // phase 5: the byte stream of the derived Hash on texts with every kind of token, every hashed field at its edges
+        for t in B_TEXTS {
+            bytes_sweep(&mut rep, &mut env, t, "plain", a.scale(2, 6));
+            bytes_sweep(&mut rep, &mut env, t, "markdown", a.scale(1, 3));
         }
         // every hashed field varied on its own, on real lints
         for _ in 0..a.scale(150, 2500) {
@@ -1931,6 +2073,14 @@ fn main() {
     if env.km.violations > 0 {
         rep.fail("encoding", format!("the harness's encoding of token kinds is not injective on the kinds seen: {}", env.km.example), json!({"kind": "none"}));
     }
+    rep.monitor("hash stream: B cases (recorded derive(Hash) stream vs enc_ctx, stored hash vs SipHash-1-3 of the model)", env.b_cases as u64);
+    rep.monitor("hash stream: bytes compared", env.b_stream_bytes);
+    rep.monitor("hash stream: DefaultHasher over ONE write of the recorded stream != stored hash", env.stream_rehash_broken);
+    rep.monitor("hash stream: violations of injectivity of the discriminant encoding of token kinds", env.km_b.violations);
+    if env.km_b.violations > 0 {
+        rep.fail("encoding", format!("the discriminant encoding of token kinds (stream B) is not injective on the kinds seen: {}", env.km_b.example), json!({"kind": "none"}));
+    }
+    rep.extra.insert("b_cases".into(), json!(env.b_cases));
     rep.extra.insert("c_cases".into(), json!(env.c_cases));
     rep.extra.insert("x_cases".into(), json!(env.x_cases));
     rep.extra.insert("q_cases".into(), json!(env.q_cases));
